@@ -229,6 +229,10 @@ func runCase(c *Case) (nontrivial bool, err error) {
 				st[id] = rstate{state: ev.label, host: ev.host}
 			}
 			history = append(history, fmt.Sprintf("r%d:%s@h%d", id, ev.label, ev.host))
+			if ev.label == "select" && ev.host >= 0 && fails[ev.host] >= c.MaxFails {
+				// none of the recorded failures can have expired (fail_timeout 1h): the backend is down
+				return fmt.Errorf("backend %d was selected for request %d although it has %d unexpired failures and max_fails is %d (pool of %d; history %v)", ev.host, id, fails[ev.host], c.MaxFails, len(pool), history)
+			}
 			if ev.label == "select" && id < len(c.Cancel) && c.Cancel[id] && !cancelled[id] {
 				cancelled[id] = true
 				cancels[id]() // the client has gone away; the request is still parked before the count
